@@ -157,6 +157,9 @@ CHECKS.update({
 
 NOT_YET = {}
 
+PUMPED = {"C01", "C02", "C03", "C05", "C07", "C04", "C08", "C13", "C09", "C10", "C11", "C16", "C17", "C18"}
+PUMP = " Pumped linear families (refmodel::pump) complement the small-scope search: 13 one-parameter families (long strings of four kinds, a long key, long arrays, many distinct / duplicated keys, long integers and fractions, a nested long array) are executed for every size 0..40 and 2^k-1, 2^k, 2^k+1 up to 65 537."
+
 props = [json.loads(l) for l in open(f"{root}/properties.jsonl")]
 checks = []
 na = []
@@ -175,6 +178,8 @@ for p in props:
             "level_note": note,
             "technique": technique,
         }
+        if pid in PUMPED:
+            c["level_claimed"]["text"] += PUMP
         checks.append(c)
     else:
         na.append({"property_id": pid, "reason": NOT_YET.get(pid, "check under construction in this session; not claimed until it runs clean (see DESIGN.md section 4 for the planned decision procedure)")})
